@@ -35,6 +35,11 @@ def band_text(rng, tag, k, cw, font=1, size=9):
     lo, hi = (k - 1 + 0.25) * cw, (k - 0.25) * cw
     words = ["lorem", "ipsum", "dolor", "sit", "amet", "elit", "sed", "do"]
     s = tag
+    if rng.random() < 0.2:
+        # wide glyphs without blanks: few characters, much width
+        s += " "
+        while measure(s, font, size) < lo:
+            s += rng.choice("WMWM@%")
     while measure(s, font, size) < lo:
         s += " " + rng.choice(words)
     while measure(s, font, size) > hi and len(s) > len(tag):
